@@ -173,6 +173,45 @@ func (cr *cliReplayer) runConcrete(j *Job, m *ConcreteModel, aid string) *Native
 					return fail(fmt.Sprintf("gtree template | gtree output renders %q, README documents %q", clip(tree), clip(want)))
 				}
 			}
+			// the commands that print without going through the library, on an output stream that takes nothing: a failed
+			// write is an I/O failure of the operation, so the status is non-zero and stderr says why
+			for _, args := range [][]string{{"template"}, {"template", "--description"}, {"tmpl"}} {
+				cr.stdoutPath = "/dev/full"
+				code, _, errOut := cr.exec(cr.bin, cr.dir, "", args...)
+				cr.stdoutPath = ""
+				res.Asserts["template-devfull"]++
+				if code == 0 || strings.TrimSpace(errOut) == "" {
+					return fail(fmt.Sprintf("gtree %s with stdout=/dev/full: exit %d, stderr %q; nothing could be written, so the operation failed", strings.Join(args, " "), code, clip(errOut)))
+				}
+			}
+		}
+		return res
+	}
+	if j.Entry == "VerifC16Template" {
+		// the template action on the real binary: with a stdout that takes nothing when the model refuses a write
+		// (/dev/full refuses every write: the coarsest member of the family), a healthy pipe otherwise
+		args := []string{"template"}
+		if m.Bools["b_flag_description_0"] {
+			args = append(args, "--description")
+		}
+		refused := false
+		for k, v := range m.Bools {
+			if strings.HasPrefix(k, "b_stdoutfails_") && v {
+				refused = true
+			}
+		}
+		if refused {
+			cr.stdoutPath = "/dev/full"
+		}
+		code, out, errOut := cr.exec(cr.bin, cr.dir, "", args...)
+		cr.stdoutPath = ""
+		res.Asserts["template"]++
+		res.Notes = append(res.Notes, fmt.Sprintf("gtree %s (stdout refused: %v) -> exit %d", strings.Join(args, " "), refused, code))
+		if refused && (code == 0 || strings.TrimSpace(errOut) == "") {
+			return fail(fmt.Sprintf("gtree %s with a stdout that takes nothing: exit %d, stderr %q", strings.Join(args, " "), code, clip(errOut)))
+		}
+		if !refused && (code != 0 || !strings.HasSuffix(out, "\n") || !strings.HasPrefix(out, "- ")) {
+			return fail(fmt.Sprintf("gtree %s: exit %d, stdout %q", strings.Join(args, " "), code, clip(out)))
 		}
 		return res
 	}
